@@ -81,6 +81,28 @@ func framesSeeds() [][]byte {
 		cat([]byte{2, 0x21 | 4, 0x01, 0}, conv(false)), // MaxFrameSize 125, discard
 		cat([]byte{2, 0x02, 0x02, 0}, conv(true)),      // SkipHeaderCheck
 	)
+	// Reader with SkipHeaderCheck and every OnIntermediate / OnContinuation arrangement over a fragmented
+	// message with an interleaved control frame that announces more than a control frame may
+	for _, masked := range []bool{false, true} {
+		a := byte(1)
+		if masked {
+			a = 0
+		}
+		for _, l := range []hostileLen{{126, 126}, {126, 1000}, {127, 1 << 16}, {127, inProcCap}} {
+			stream := cat(fr(ref.OpText, false, masked, 0, "frag"), hostileHeader(0x89, masked, l), bytes.Repeat([]byte("p"), 300), fr(ref.OpCont, true, masked, 0, "end"))
+			for inter := byte(0); inter < 4; inter++ {
+				for _, b := range []byte{0x02, 0x02 | 0x04, 0x02 | 0x01, 0x00} {
+					out = append(out, cat([]byte{2, a, b | inter<<6, 0}, stream))
+				}
+			}
+		}
+		for _, l := range []hostileLen{{127, 1<<24 + 1}, {127, inProcCap}} {
+			for e := byte(1); e <= 4; e++ {
+				out = append(out, cat([]byte{e, a, 0, 0}, hostileHeader(0x02, masked, l), []byte("non-final first frame")),
+					cat([]byte{e, a, 0, 0}, fr(ref.OpText, false, masked, 0, "a"), hostileHeader(0x00, masked, l), []byte("non-final continuation")))
+			}
+		}
+	}
 	for _, l := range hostileLens {
 		for _, masked := range []bool{false, true} {
 			a := byte(1)
